@@ -222,7 +222,11 @@ def run(tier, regenerate=True):
         for second in (("add", 0, 1), ("add", 1, 0)):
             for third in op_choices():
                 shapes.append((None, (("add", 0, 0), second, third)))
-        chk.bounds["three_operation_slice"] = "add(0,0); add(other document); any operation"
+        # ... and with an archive folder: one document outside it, one inside, then any operation (counters that
+        # treat archived documents differently need a sibling of the same kind outside the archive)
+        for third in op_choices():
+            shapes.append((0, (("add", 1, 0), ("add", 0, 1), third)))
+        chk.bounds["three_operation_slice"] = "add(0,0); add(other document); any operation; with archive folder 0: add(1,0); add(0,1); any operation"
     only = os.environ.get("VERIF_ONLY")
     if only:
         shapes = shapes[:int(only)]
